@@ -48,6 +48,8 @@ type Engine struct {
 	tables    []*TableDecl
 	lemmas    []*Lemma
 	headerCache map[string]string
+	compOwner   map[string]string
+	notCtorOnly map[string]bool
 }
 
 func run(dir string, env []string, name string, args ...string) (string, error) {
